@@ -412,6 +412,21 @@ def F28_partial_show_protocol_line():
         return f'Pluribus {line!r}; seat 0 sees {own!r}'
 
 
+def F29_short_all_in_since_own_action():
+    """C03: a full all-in raise is counted into the run of short all-ins: a caller facing less than a full raise
+    may raise again (recorded finding)."""
+    s = NoLimitTexasHoldem.create_state(ALL, True, 0, (1, 2), 2, (200, 200, 200, 30, 200, 35), 6)
+    s.complete_bet_or_raise_to(10)      # p2: +8
+    s.complete_bet_or_raise_to(30)      # p3 all-in: +20, a full raise
+    s.check_or_call()                   # p4 calls 30
+    s.complete_bet_or_raise_to(35)      # p5 all-in: +5, short
+    s.fold()
+    s.fold()
+    s.check_or_call()                   # p2 calls (he faced 25)
+    if s.actor_index == 4 and s.can_complete_bet_or_raise_to():
+        return 'p4 called 30, faces 5 (a full raise is 20) and may raise'
+
+
 DEMOS = {k: v for k, v in globals().items() if k.startswith('F') and callable(v) and k[1:2].isdigit()}
 
 if __name__ == '__main__':
